@@ -2,7 +2,9 @@
 N real Nodes (real KademliaProtocol, routing tables, ping queues, refresh loops) on a fully simulated
 datagram network under the virtual clock: seeded one-way delay, reordering, duplication; in fault scenarios
 loss, dead nodes and HOSTILE scripted repliers.  Oracle H1-H4 (hit guarantee), T1-T2 (termination, output
-validity), DESIGN §4 C12.  A network monitor records every delivered response datagram."""
+validity), DESIGN §4 C12.  A network monitor records every delivered response datagram.  Value lookups are made with the
+iterative finder AND through Node.accumulate_peers() (the entry point of the blob downloader and of peer_list); hit scenarios go on
+after their lookups (more lookups, an announcement by a node that has searched, a node that joins after the announcements)."""
 import asyncio
 import collections
 import hashlib
@@ -15,8 +17,11 @@ from vlib.ref import bencode as BE
 ID = 'C12'
 LEVEL = 'exploration'
 RULE = ('families: hit = loss-free honest network of N in {2..40} nodes joined through a bootstrap node in a seeded order with per-datagram '
-        'delay/reorder/duplication, then announcements from random nodes checked from every other node, multi-announcer blobs (M > K), '
-        'pages = focused sweep: one storer holding n = 1..100 records, one searcher, plus a lookup during which n/2 further records reach the storer '
+        'delay/reorder/duplication, then announcements from random nodes checked from every other node (iterative finder; one node per blob also through '
+        'Node.accumulate_peers), multi-announcer blobs (M > K) looked up by a non-announcer, by an announcer, through accumulate_peers and once more by a random node '
+        'after those lookups, then one announcement (neighbouring hash) by each of the two nodes that have searched, looked up by a random node, then (N < 40) a node that '
+        'joins after all announcements looks every blob up both ways, '
+        'pages = focused sweep: one storer holding n = 1..100 records, one searcher (which then announces the blob itself: stored on the storer, the n others still returned), plus a lookup during which n/2 further records reach the storer '
         '(one between any two datagrams); expiry = announce, 24 h - 1 s, 24 h + 1 s of virtual time; stale = N >= 10: blob announced by one of its K '
         'closest nodes, 24 h + 1 s later by a far node, looked up from every node incl. the one left with only the expired record; '
         'fault = loss in {0.1,0.3,0.6}, dead subset, hostile subset from a 13-entry catalogue (+ cases of their own for kinds added later: repeated_page), node and value lookups from honest nodes. '
@@ -29,9 +34,13 @@ REQUIRED_HITS = ['H1.lookup_found_announcer', 'H2.checked', 'H3.before_expiry_fo
                  'H4.page_sweep_checked', 'T1.lookup_terminated', 'T1.with_loss', 'T1.with_dead', 'T1.with_hostile', 'T2.node_results_checked',
                  'T2.value_results_checked', 'H4.page_sweep_checked_searcher_is_announcer', 'H4.multi_announcer_all_found_by_an_announcer', 'net.duplicates_delivered', 'net.reordered', 'hostile.garbage', 'hostile.endless_pages',
                  'hostile.reserved_ips', 'hostile.own_id_contacts', 'hostile.bad_compact', 'size.2', 'size.40',
-                 'H3.holder_of_expired_record_found_fresh_announcer', 'T1.paging_while_records_arrive', 'hostile.repeated_page_served_again']
+                 'H3.holder_of_expired_record_found_fresh_announcer', 'T1.paging_while_records_arrive', 'hostile.repeated_page_served_again',
+                 'H1.delivered_by_accumulate_peers', 'H1.late_joiner_found_announcer', 'H1.late_joiner_delivered_by_accumulate_peers',
+                 'H4.all_delivered_by_accumulate_peers', 'H4.all_found_again_after_lookups', 'H1.found_announcement_made_after_lookups',
+                 'H2.pages_searcher_announcement_stored']
 K, ALPHA, RPC = 8, 5, 5.0
 MAX_PROBES = 3000      # no honest or merely faulty network of <= 40 nodes needs more probes for one lookup
+API_DEADLINE = 300.0   # virtual s an honest loss-free network of <= 41 nodes gets to deliver an announcer through accumulate_peers (lookup + one ping)
 HOSTILE = ['garbage', 'wrong_rpc_id', 'contacts_wrong_shape', 'own_id_contacts', 'reserved_ips', 'bad_ports', 'oversized', 'bad_compact',
            'missing_token', 'endless_pages', 'fake_closer_contacts', 'impersonate_key', 'fake_id_real_addr']
 HOSTILE_LATER = ['repeated_page']      # kinds added later get cases of their own: the rotation of the older ones (and so their cases) stays as it was
@@ -339,6 +348,28 @@ async def node_lookup(loop, node, key, watchdog=2000.0):
     return found, done, probes[0], loop.time() - t0, finder
 
 
+async def api_lookup(loop, node, key, want, deadline=API_DEADLINE):
+    """value lookup through Node.accumulate_peers(), the way the blob downloader and peer_list look a blob up: the node's own producer
+    task drives the iterative finder and hands over the peers it was given (unknown ones after they answered a ping).  Returns
+    ({(address, tcp port)} delivered, virtual seconds); stops as soon as all of `want` were delivered or after `deadline` virtual s."""
+    search_queue = asyncio.Queue()
+    search_queue.put_nowait(key.hex())
+    peer_queue, task = node.accumulate_peers(search_queue)
+    got = set()
+    t0 = loop.time()
+    try:
+        while want - got and loop.time() - t0 < deadline:
+            try:
+                peers = await asyncio.wait_for(peer_queue.get(), t0 + deadline - loop.time())
+            except asyncio.TimeoutError:
+                break
+            got.update((p.address, p.tcp_port) for p in peers)
+    finally:
+        task.cancel()
+        await asyncio.gather(task, return_exceptions=True)
+    return got, loop.time() - t0
+
+
 def xor(a, b):
     return int.from_bytes(a, 'big') ^ int.from_bytes(b, 'big')
 
@@ -347,6 +378,7 @@ def xor(a, b):
 async def _hit(rec, case, loop):
     boot.import_lbry()
     r = random.Random(case['seed'])
+    r2 = random.Random(case['seed'] ^ 0x5eed)       # choices of the steps added later: the older steps keep drawing what they drew
     n = case['n']
     dclass = r.choice(['zero', 'small', 'max'])
     delay = {'zero': (0.0, 0.0), 'small': (0.0, 0.3), 'max': (0.0, RPC / 2 - 0.1)}[dclass]
@@ -363,6 +395,7 @@ async def _hit(rec, case, loop):
             return
         ids = [nd.protocol.node_id for nd in nodes]
         nann = min(3, n)
+        announced = []
         for a_i in r.sample(range(n), nann):
             if rec.out_of_time():
                 break
@@ -407,6 +440,22 @@ async def _hit(rec, case, loop):
                                   f'{len(stored_to)} nodes ({overlap} of the {len(closest)} closest); lookup returned {len(found)} peers after {probes} probes',
                                   {'n': n, 'delay': dclass, 'dup': net.dup, 'stored_to': len(stored_to), 'overlap': overlap, 'probes': probes})
                     return
+            announced.append((blob, a_i))
+            # H1 at the node's own lookup entry point (seeded break C12-J: the raw finder yields the announcer, the producer behind
+            # Node.accumulate_peers dropped it): one node, if possible one that was not asked to store the record and so learns the
+            # announcer from other nodes' replies (such a peer is handed over only after it answered a ping)
+            others = [i for i in range(n) if i != a_i]
+            s_i = r2.choice([i for i in others if ids[i] not in stored_to] or others)
+            got, dt = await api_lookup(loop, nodes[s_i], blob, {(pub_ip(a_i), 3333)})
+            if (pub_ip(a_i), 3333) in got:
+                rec.hit('H1.delivered_by_accumulate_peers')
+            else:
+                rec.violation('C12/H1/announcer-not-delivered-by-accumulate-peers',
+                              f'network of {n} honest nodes (delay {dclass}, dup {net.dup}): the iterative finder of node {s_i} yields announcer {a_i}, a lookup of the '
+                              f'same blob through Node.accumulate_peers() of node {s_i} delivered {len(got)} peers without it in {dt:.0f} virtual s '
+                              f'(searcher {"was not" if ids[s_i] not in stored_to else "was"} asked to store the record)',
+                              {'n': n, 'delay': dclass, 'dup': net.dup, 'delivered': len(got), 'searcher_stores_record': ids[s_i] in stored_to})
+        multi = None
         # H4: multi-announcer blob
         if n > K + 1:
             blob = hashlib.sha384(b'multi%d' % r.getrandbits(40)).digest()
@@ -423,6 +472,7 @@ async def _hit(rec, case, loop):
                               {'n': n, 'announcers': len(announcers), 'missing': len(want - got), 'probes': probes})
             else:
                 rec.hit('H4.multi_announcer_all_found')
+            s0 = searcher
             # the same lookup from a node that is itself one of the announcers (seeded break C12-C: the requester's own record was
             # cut out of a page AFTER paging, leaving a short page that ends the paging early)
             searcher = r.choice(announcers)
@@ -435,6 +485,110 @@ async def _hit(rec, case, loop):
                               f'{len(want - got)} of the others', {'n': n, 'announcers': len(announcers), 'missing': len(want - got), 'probes': probes})
             else:
                 rec.hit('H4.multi_announcer_all_found_by_an_announcer')
+            multi = (blob, announcers)
+            # the same blob through Node.accumulate_peers() of a node that is not an announcer (if there is one): every announcer is delivered
+            s_i = r2.choice([i for i in range(n) if i not in announcers] or announcers)
+            want = {(pub_ip(a), 3333) for a in announcers if a != s_i}
+            got, dt = await api_lookup(loop, nodes[s_i], blob, want)
+            if want - got:
+                rec.violation('C12/H4/multi-announcer-lookup-misses-some/through-accumulate-peers',
+                              f'{len(announcers)} announcers of one blob in a network of {n} (delay {dclass}): Node.accumulate_peers() of node {s_i} delivered '
+                              f'{len(want & got)} of {len(want)} of them in {dt:.0f} virtual s', {'n': n, 'announcers': len(announcers), 'missing': len(want - got)})
+            else:
+                rec.hit('H4.all_delivered_by_accumulate_peers')
+            # ---- the network AFTER those lookups (seeded break C12-I: a lookup that had seen a whole number of full pages ended with a request
+            # the storing node answered with an error; both sides then booked a failure for an honest peer: the storing nodes hid the searcher's
+            # own announcement from everybody else, the searcher dropped the storing nodes).  A lookup is a read: whoever looks the blob up next
+            # gets every announcer, the one that has just searched included, and that node announces another blob like any other node.
+            x = searcher
+            y = r2.choice([i for i in range(n) if i != x])
+            found, done, probes, dt, _ = await value_lookup(loop, nodes[y], blob)
+            got = {p.address for p in found}
+            want = {pub_ip(a) for a in announcers if a != y}
+            if want - got:
+                rec.violation('C12/H4/multi-announcer-lookup-misses-some/after-lookups-by-other-nodes',
+                              f'{len(announcers)} announcers of one blob in a network of {n}; after node {s0} and node {x}, one of them, have looked the blob up '
+                              f'the lookup from node {y} misses {len(want - got)} of them'
+                              f'{" including node %d" % x if pub_ip(x) in want - got else ""}, minutes after the announcements',
+                              {'n': n, 'announcers': len(announcers), 'missing': len(want - got), 'misses_the_earlier_searcher': pub_ip(x) in want - got,
+                               'probes': probes})
+            else:
+                rec.hit('H4.all_found_again_after_lookups')
+            for k, z in enumerate(dict.fromkeys([s0, x])):        # both nodes that have searched: s0 (not an announcer if there is such a node) and x
+                blob2 = blob[:-1] + bytes([blob[-1] ^ (1 + k)])     # a neighbouring hash: same closest nodes
+                role = 'itself one of them' if z in announcers else 'not one of them'
+                stored_to = await nodes[z].announce_blob(blob2.hex())
+                closest = sorted((i for i in ids if i != ids[z]), key=lambda i: xor(i, blob2))[:K]
+                overlap = len(set(stored_to) & set(closest))
+                if not stored_to:
+                    rec.violation('C12/H2/announce-stored-nowhere/after-lookups-by-the-announcing-node',
+                                  f'network of {n} honest nodes (delay {dclass}): node {z} looked up a blob with {len(announcers)} announcers ({role}), then '
+                                  f'announced a blob with a neighbouring hash: stored to 0 nodes', {'n': n, 'delay': dclass, 'announcers': len(announcers)})
+                    continue
+                rec.hit(f'H2.after_lookups_overlap_{overlap}_of_{len(closest)}')
+                if overlap < len(closest):
+                    # same clause, same key as for the first announcements (known finding for the larger networks)
+                    rec.violation('C12/H2/announcement-not-stored-on-the-k-closest-nodes',
+                                  f'network of {n} honest nodes (delay {dclass}): announcement (made after lookups by the announcing node) stored on {len(stored_to)} '
+                                  f'nodes of which only {overlap} are among the {len(closest)} nodes closest to the hash',
+                                  {'n': n, 'delay': dclass, 'overlap': overlap, 'k_closest': len(closest), 'after_lookups': True})
+                y = r2.choice([i for i in range(n) if i != z])
+                found, done, probes, dt, _ = await value_lookup(loop, nodes[y], blob2)
+                if any(p.address == pub_ip(z) and p.tcp_port == 3333 for p in found):
+                    rec.hit('H1.found_announcement_made_after_lookups')
+                else:
+                    rec.violation('C12/H1/announcer-not-found/announced-after-lookups-by-the-announcing-node',
+                                  f'network of {n} honest nodes (delay {dclass}): node {z} looked up a blob with {len(announcers)} announcers ({role}), then '
+                                  f'announced a blob with a neighbouring hash (stored on {len(stored_to)} nodes, {overlap} of the {len(closest)} closest): node {y} '
+                                  f'does not find it, lookup returned {len(found)} peers after {probes} probes',
+                                  {'n': n, 'delay': dclass, 'announcers': len(announcers), 'stored_to': len(stored_to), 'overlap': overlap, 'probes': probes,
+                                   'announcing_node_is_an_announcer_of_the_first_blob': z in announcers})
+        # ---- join orders: a node that joins AFTER the announcements (it stores none of them, whatever it is given comes from other nodes'
+        # replies) looks every blob up, with the iterative finder and through Node.accumulate_peers()
+        if n < 40 and announced and not rec.out_of_time():
+            from lbry.dht.node import Node
+            from lbry.dht.peer import PeerManager
+            late = Node(loop, PeerManager(loop), hashlib.sha384(b'late%d-%d' % (n, r2.getrandbits(32))).digest(), 4444, 4444, 3333, pub_ip(n), rpc_timeout=RPC)
+            nodes.append(late)          # stopped with the others
+            await late.start_listening(pub_ip(n))
+            late.start(pub_ip(n), [(pub_ip(0), 4444)])
+            for _ in range(600):
+                if late.joined.is_set():
+                    break
+                await asyncio.sleep(1)
+            if not late.joined.is_set():
+                rec.violation('C12/H0/node-never-joined/joined-after-announcements', f'a node started 600 virtual s ago has not joined a loss-free honest network of {n}',
+                              {'n': n, 'delay': dclass})
+                return
+            await asyncio.sleep(30)
+            for blob, a_i in announced:
+                found, done, probes, dt, _ = await value_lookup(loop, late, blob)
+                if any(p.address == pub_ip(a_i) and p.tcp_port == 3333 for p in found):
+                    rec.hit('H1.late_joiner_found_announcer')
+                else:
+                    rec.violation('C12/H1/announcer-not-found/searcher-joined-after-the-announcement',
+                                  f'network of {n} honest nodes (delay {dclass}, dup {net.dup}) + one that joined after the announcements: it did not find announcer '
+                                  f'{a_i}; lookup {"returned" if done else "still running, had returned"} {len(found)} peers after {probes} probes',
+                                  {'n': n, 'delay': dclass, 'dup': net.dup, 'probes': probes, 'terminated': done})
+                    continue
+                got, dt = await api_lookup(loop, late, blob, {(pub_ip(a_i), 3333)})
+                if (pub_ip(a_i), 3333) in got:
+                    rec.hit('H1.late_joiner_delivered_by_accumulate_peers')
+                else:
+                    rec.violation('C12/H1/announcer-not-delivered-by-accumulate-peers/searcher-joined-after-the-announcement',
+                                  f'network of {n} honest nodes (delay {dclass}, dup {net.dup}) + one that joined after the announcements: its iterative finder yields '
+                                  f'announcer {a_i}, a lookup of the same blob through its Node.accumulate_peers() delivered {len(got)} peers without it in '
+                                  f'{dt:.0f} virtual s', {'n': n, 'delay': dclass, 'dup': net.dup, 'delivered': len(got)})
+            if multi:
+                blob, announcers = multi
+                found, done, probes, dt, _ = await value_lookup(loop, late, blob)
+                want = {pub_ip(a) for a in announcers}
+                if want - {p.address for p in found}:
+                    rec.violation('C12/H4/multi-announcer-lookup-misses-some/searcher-joined-after-the-announcements',
+                                  f'{len(announcers)} announcers of one blob in a network of {n}: the lookup from a node that joined after the announcements misses '
+                                  f'{len(want - {p.address for p in found})} of them', {'n': n, 'announcers': len(announcers), 'probes': probes})
+                else:
+                    rec.hit('H4.late_joiner_found_all')
         if net.duplicated:
             rec.hit('net.duplicates_delivered')
         if net.reordered:
@@ -474,7 +628,18 @@ async def _pages(rec, case, loop):
                               f'({probes} probes)', {'n': n, 'returned': len(got & want), 'probes': probes})
             # again after the searcher has itself announced the blob to the storer (n + 1 records, the requester's own is left out of
             # the replies): every one of the n others must still come back
-            await searcher.announce_blob(key.hex())
+            stored_to = await searcher.announce_blob(key.hex())
+            if storer.protocol.node_id in stored_to:
+                rec.hit('H2.pages_searcher_announcement_stored')
+            else:
+                # H2 after a history: the searching node has looked up this and the smaller blobs before, now it announces one itself; the
+                # only other node of this honest loss-free network is the place to store it (what announce_blob reports is judged, the
+                # storing node's data store is only read for the log below)
+                rec.violation('C12/H2/announce-stored-nowhere/after-lookups-by-the-announcing-node',
+                              f'honest loss-free network of 2: the node that has just looked up a blob with {n} announcers (all held by the other node, all returned: '
+                              f'{not want - got}) announces the blob itself: announce_blob stored it on {len(stored_to)} nodes',
+                              {'n': n, 'stored_to': len(stored_to), 'lookup_was_complete': not want - got})
+                continue
             if not any(p.address == pub_ip(1) for p in storer.protocol.data_store.get_peers_for_blob(key)):
                 rec.log('pages.searcher_announcement_not_stored')
                 continue
